@@ -838,7 +838,7 @@ func c09R9(c *Ctx) {
 // errors.Is to tolerate a detached interface. (R3 only asks that the kind can be produced at all.)
 func c09R11(c *Ctx) {
 	p := c.P
-	c.Rule("C09.R11", "link.GetDeviceNumber: every return that follows the scan of the link list and reports failure wraps link.ErrNotFound")
+	c.Rule("C09.R11", "link.GetDeviceNumber: every failure it reports on its own account (not the forwarded error of a call) wraps link.ErrNotFound")
 	fn := p.Func("pkg/link", "GetDeviceNumber")
 	sentinel := p.LookupObj("pkg/link", "ErrNotFound")
 	if fn == nil || sentinel == nil {
@@ -846,31 +846,32 @@ func c09R11(c *Ctx) {
 		return
 	}
 	info := fn.Info()
-	var scan *ast.RangeStmt
-	for _, st := range fn.Decl.Body.List {
-		if rs, ok := st.(*ast.RangeStmt); ok {
-			scan = rs
-		}
-	}
-	if scan == nil {
-		c.Undec("C09.R11", "GetDeviceNumber scans the links", p.Pos(fn.Decl), fn.Key(), "for _, link := range linkList", "no top-level range loop")
-		return
-	}
 	sig := fn.Obj.Type().(*types.Signature)
+	// a failure this function reports on its own account (it does not pass on another call's error) is
+	// "no such device": it wraps the sentinel
 	n := 0
 	for _, r := range declReturns(fn.Decl.Body) {
-		if r.Pos() < scan.End() || len(r.Results) != sig.Results().Len() || info.Types[ast.Unparen(r.Results[len(r.Results)-1])].IsNil() {
+		if len(r.Results) != sig.Results().Len() || info.Types[ast.Unparen(r.Results[len(r.Results)-1])].IsNil() {
+			continue
+		}
+		res := r.Results[len(r.Results)-1]
+		wraps, forwards := false, false
+		ast.Inspect(res, func(k ast.Node) bool {
+			if id, ok := k.(*ast.Ident); ok {
+				o := info.ObjectOf(id)
+				if o == sentinel {
+					wraps = true
+				} else if v, ok := o.(*types.Var); ok && v.Type().String() == "error" {
+					forwards = true
+				}
+			}
+			return true
+		})
+		if forwards && !wraps {
 			continue
 		}
 		n++
-		wraps := false
-		ast.Inspect(r, func(k ast.Node) bool {
-			if id, ok := k.(*ast.Ident); ok && info.ObjectOf(id) == sentinel {
-				wraps = true
-			}
-			return !wraps
-		})
 		c.Check(wraps, "C09.R11", "GetDeviceNumber: the not-found exit wraps the sentinel", p.Pos(r), fn.Key(), "errors.Wrapf(ErrNotFound, …) / fmt.Errorf(\"…%w\", ErrNotFound)", exprString2(r))
 	}
-	c.Floor("C09.R11", "failure exits after the scan", 1, n)
+	c.Floor("C09.R11", "own failure exits", 1, n)
 }
